@@ -91,6 +91,8 @@ TrInsert(c, t, s, e) ==
   IN /\ OkInsert(Strict, c, t, s, e.k, e.a, e.d, out)
      /\ JJ({"C01", "C09"}, ValuesEq(e, s2))
      /\ JJ({"C05"}, c.kind \in TtlKinds => LiveEq(e, s2))
+     \* C05: "... unless it was erased, cleared or evicted as C03 allows"
+     /\ JJ({"C05"}, c.kind \in TtlKinds => OkInsert({"C03"}, c, t, s, e.k, e.a, e.d, out))
      /\ JJ({IF aging THEN "C14" ELSE "C11"}, CntEq(c, e, s2))
      /\ JJ({"C19"}, ~out.ret => (ValuesEq(e, s) /\ CntEq(c, e, s)))
      /\ st' = Resync(c, e, s2)
@@ -103,7 +105,7 @@ TrErase(c, t, s, e) ==
       s2  == ElemErase(c, t, s, e.k, out)
   IN /\ OkErase(Strict, c, t, s, e.k, out)
      /\ JJ({"C01"}, ValuesEq(e, s2))
-     /\ JJ({"C05"}, c.kind \in TtlKinds => LiveEq(e, s2))
+     /\ JJ({"C05"}, c.kind \in TtlKinds => (LiveEq(e, s2) /\ Gone(e, s) \subseteq {e.k}))
      /\ JJ({"C11"}, CntEq(c, e, s2))
      /\ JJ({"C19"}, ~out.ret => (ValuesEq(e, s) /\ CntEq(c, e, s)))
      /\ st' = Resync(c, e, s2)
@@ -149,6 +151,7 @@ TrClean(c, t, s, e) ==
   LET out == [ret |-> e.ret, gone |-> Gone(e, s), sz |-> SzOr(e, NLive(s))]
       s2  == ElemClean(c, t, s, out)
   IN /\ OkClean(Strict, c, t, s, out)
+     /\ JJ({"C05"}, Gone(e, s) = {})          \* cleaning expires nothing early
      /\ JJ({"C01", "C17"}, ValuesEq(e, s2))
      /\ st' = Resync(c, e, s2)
 
